@@ -1222,6 +1222,108 @@ Qed.
 
 End Total.
 
+(** ---------- every write of a produced report lies inside its sheet *)
+Section WithinCapacity.
+Variable T : trtables.
+Hypothesis G : tables_good T.
+Hypothesis A : append_ok T.
+
+Lemma Forall2_In_r {X Y} (R : X -> Y -> Prop) l l' y : Forall2 R l l' -> In y l' -> exists x, In x l /\ R x y.
+Proof.
+  intro F. induction F as [|a b l l' Hab F IH]; intro H; [contradiction|]. destruct H as [<-|H].
+  - exists a. split; [left; reflexivity | exact Hab].
+  - destruct (IH H) as [x [X1 X2]]. exists x. split; [right; exact X1 | exact X2].
+Qed.
+
+Lemma mk_item_cols src it : mk_item T src = Ok it -> forall cv, In cv (it_cells it) -> exists fld, In (fst cv, fld) (row_cols T src).
+Proof.
+  unfold mk_item. destruct (cells_of (tt_datefmt T) src (row_cols T src)) as [cs|] eqn:Ec; [|discriminate].
+  intro H. inversion H; subst it. cbn [it_cells]. intros [c v] Hcv. destruct (cells_of_spec _ _ _ _ Ec) as [C1 _].
+  assert (Hc : In c (map fst (row_cols T src))) by (rewrite <- C1; apply in_map_iff; exists (c, v); split; [reflexivity | exact Hcv]).
+  apply in_map_iff in Hc. destruct Hc as [[c' fld] [E1 Hc]]. cbn [fst] in *. subst c'. exists fld. exact Hc.
+Qed.
+
+(** a successful asset step satisfies the premises of [gen_asset_ok], hence preserves the invariant *)
+Lemma gen_asset_inv i st ac st' : Inv T st -> gen_asset T i st ac = Ok st' ->
+  cd_gls (snd ac) = iter_window g_day (rp_from i) (rp_to i) (cd_all_gls (snd ac)) -> Inv T st'.
+Proof.
+  intros I H Hg. pose proof H as H0. unfold gen_asset in H0.
+  destruct (size_sheets T (type_count i (snd ac)) (ts_sheets st)) as [sized|]; [|discriminate].
+  destruct (mk_items T (asset_sources i ac)) as [items|] eqn:Hmk; [|discriminate].
+  pose proof (place_all_routed T _ _ _ H0) as R.
+  assert (Hty : forall g, In g (cd_gls (snd ac)) -> type_to_sheet T (t_type (g_ev g)) <> None).
+  { intros g Hgl. rewrite <- (sources_gls (cd_gls (snd ac)) O (ra_name (fst ac)) (rp_period i) (cd_evfrac (snd ac)) (cd_lotfrac (snd ac))) in Hgl.
+    fold (asset_sources i ac) in Hgl. apply in_map_iff in Hgl. destruct Hgl as [src [E Hsrc]]. subst g.
+    apply In_nth_error in Hsrc. destruct Hsrc as [k Hk].
+    destruct (Forall2_nth _ _ _ _ _ (mk_items_Forall2 T _ _ Hmk) Hk) as [it [Hit Hmi]].
+    rewrite <- (mk_item_type T _ _ Hmi). rewrite Forall_forall in R. exact (R it (nth_error_In _ _ Hit)). }
+  destruct (gen_asset_ok T G A i st ac I (ex_intro _ items Hmk) Hty Hg) as [st1 [E1 I1]].
+  rewrite H in E1. inversion E1; subst. exact I1.
+Qed.
+
+Lemma gen_assets_inv i : forall acs st st', Inv T st -> gen_assets T i st acs = Ok st' ->
+  (forall ac, In ac acs -> cd_gls (snd ac) = iter_window g_day (rp_from i) (rp_to i) (cd_all_gls (snd ac))) -> Inv T st'.
+Proof.
+  induction acs as [|ac acs IH]; intros st st' I H Hw; cbn [gen_assets] in H; [inversion H; subst; exact I|].
+  destruct (gen_asset T i st ac) as [st1|] eqn:E; [|discriminate].
+  apply (IH st1 st' (gen_asset_inv i st ac st1 I E (Hw ac (or_introl eq_refl))) H). intros a Ha. apply Hw. right. exact Ha.
+Qed.
+
+(** every data sheet of a produced report passes [sheet_ok]: template cells and all fraction rows lie inside
+    the sheet as sized by the [append_rows] calls *)
+Theorem data_sheets_within_capacity i out : tax_report T i = Ok out ->
+  forall s, In s out -> is_legend s = false -> sheet_ok s = true.
+Proof.
+  intros H s Hs Hl. unfold tax_report in H.
+  destruct (computed_all i (rp_assets i)) as [acs|] eqn:EC; [|discriminate].
+  destruct (init_sheets T i) as [sheets|] eqn:EI; [|discriminate].
+  destruct (gen_assets T i {| ts_rows := init_rows T; ts_sheets := sheets |} acs) as [st|] eqn:EG; [|discriminate].
+  destruct (prune T (ts_rows st) (ts_sheets st)) as [out'|] eqn:EP; [|discriminate]. inversion H; subst out'. clear H.
+  unfold init_sheets in EI. destruct (negb _) in EI; [discriminate|].
+  destruct (legend_writes T i) as [lw|] eqn:EL; [|discriminate]. inversion EI; subst sheets. clear EI.
+  assert (I0 : Inv T {| ts_rows := init_rows T; ts_sheets := omap_filter (init_sheet T lw) (tt_template T) |}).
+  { split; cbn [ts_rows ts_sheets]; [apply init_names|]. intros s1 Hs1 Hl1.
+    assert (H0 : In s1 (data_sheets0 T)).
+    { unfold data_sheets0, init0. rewrite <- (init_data T lw). apply filter_In. split; [exact Hs1 | rewrite Hl1; reflexivity]. }
+    exists (tt_first_row T), s1. rewrite (init_rows_get T _ (proj1 (tg_keys T G _ (In_data_name T s1 H0)))).
+    destruct (tg_sheet T G s1 H0) as [_ [S2 _]]. pose proof (tg_first T G). split; [reflexivity|]. split; [lia|]. tauto. }
+  pose proof (gen_assets_inv i acs _ st I0 EG (computed_all_gls i _ _ EC)) as [_ I2].
+  assert (ND : NoDup (map sw_name (ts_sheets {| ts_rows := init_rows T; ts_sheets := omap_filter (init_sheet T lw) (tt_template T) |})))
+    by (cbn [ts_sheets]; rewrite init_names; exact (tg_nodup T G)).
+  destruct (gen_assets_spec T i acs _ st ND EG) as [items [Hitems [Hrows [[dr Hsheets] _]]]]. cbn [ts_rows ts_sheets] in *.
+  rewrite (prune_spec T _ _ _ EP) in Hs. apply filter_In in Hs. destruct Hs as [Hs _].
+  destruct (I2 s Hs Hl) as [r [s0' [R1 [R2 _]]]].
+  rewrite Hsheets in Hs. apply in_map_iff in Hs. destruct Hs as [s1 [Es Hs1]].
+  assert (H0 : In s1 (data_sheets0 T)).
+  { unfold data_sheets0, init0. rewrite <- (init_data T lw). apply filter_In. split; [exact Hs1|].
+    subst s. unfold is_legend in *. cbn [ext sw_name] in Hl. rewrite Hl. reflexivity. }
+  pose proof (init_rows_get T _ (proj1 (tg_keys T G _ (In_data_name T s1 H0)))) as Hfirst.
+  assert (Hn : sw_name s = sw_name s1) by (subst s; reflexivity).
+  rewrite Hn, Hrows, Hfirst in R1.
+  change (Some (tt_first_row T + tt_row_step T * nrouted T (sw_name s1) items) = Some r) in R1. injection R1 as Er. rewrite (tg_step T G), Z.mul_1_l in Er.
+  destruct (tg_sheet T G s1 H0) as [S1 [S2 [S3 S4]]].
+  unfold sheet_ok. apply forallb_forall. intros w Hw.
+  assert (Hcap : sw_rows s >= tt_first_row T + nrouted T (sw_name s1) items /\ sw_cols s = sw_cols s1) by (split; [lia | subst s; reflexivity]).
+  destruct Hcap as [Hcr Hcc]. pose proof (nrouted_nonneg T (sw_name s1) items) as Hnn. pose proof (tg_first T G) as Hf0.
+  assert (Hin : (0 <= cw_row w < sw_rows s) /\ (0 <= cw_col w < sw_cols s)).
+  { subst s. cbn [ext sw_writes sw_rows sw_cols sw_name] in *. apply in_app_or in Hw. destruct Hw as [Hw|Hw].
+    - specialize (S3 w Hw). lia.
+    - unfold rowd in Hw. rewrite Hfirst in Hw.
+      destruct (In_spec_writes T _ _ _ _ Hw) as [j [it' [Hj [Rj Hin]]]].
+      unfold row_of in Hin. rewrite (tg_step T G), Z.mul_1_l in Hin.
+      unfold row_writes in Hin. apply in_map_iff in Hin. destruct Hin as [cv [Ew Hcv]]. subst w. cbn [cw cw_row cw_col].
+      assert (Hlt : nrouted T (sw_name s1) (firstn j items) < nrouted T (sw_name s1) items).
+      { assert (Hjl : (j < length items)%nat) by (apply nth_error_Some; congruence).
+        pose proof (nrouted_firstn_lt T (sw_name s1) items j (length items) it' Hjl Hj Rj) as L. rewrite firstn_all in L. exact L. }
+      pose proof (nrouted_nonneg T (sw_name s1) (firstn j items)).
+      destruct (Forall2_In_r _ _ _ _ (all_items_Forall2 T i acs items Hitems) (nth_error_In _ _ Hj)) as [src [_ Hmi]].
+      destruct (mk_item_cols src it' Hmi cv Hcv) as [fld Hfld]. specialize (S4 _ (row_cols_incl T src _ Hfld)). cbn [fst] in S4. lia. }
+  unfold in_capacity. destruct Hin as [[a1 a2] [a3 a4]].
+  apply andb_true_iff. split; [apply andb_true_iff; split; [apply andb_true_iff; split|]|]; first [apply Z.leb_le | apply Z.ltb_lt]; assumption.
+Qed.
+
+End WithinCapacity.
+
 Lemma report_produced_of_total T : tables_ok T = true -> append_ok T -> routing_total T = true -> forall i acs,
   computed_all i (rp_assets i) = Ok acs ->
   (exists m, legend_method (rp_sched i) = Ok m) ->
